@@ -108,3 +108,112 @@ def replay(ctx: common.Ctx, path: str, prop_sigs) -> int:
         return 1 if (fails or bad) else 0
     print(json.dumps(f, indent=1))
     return 1
+
+
+# ---- document level (C02 / C08): value / raw_text / indent assignments on parsed ledgers ----------
+def _new_value(rng, tok):
+    import datetime
+    import decimal
+    rule = getattr(tok, 'RULE', None)
+    if rule == 'ESCAPED_STRING':
+        return 'value', rng.choice(['n', 'two\nlines', 'q"uote', 'a\n\nb\n', ''])
+    if rule == 'BLOCK_COMMENT':
+        return rng.choice([('value', rng.choice(['x', 'x\ny', 'x\n\nz', ''])), ('indent', rng.choice(['', '  ', '\t']))])
+    if rule == 'INLINE_COMMENT':
+        return 'value', rng.choice(['c', 'longer comment', ''])
+    if rule == 'NUMBER':
+        return 'value', decimal.Decimal(rng.choice(['42.5', '0', '1000000', '3.14159']))
+    if rule == 'DATE':
+        return 'value', datetime.date(rng.choice([1999, 2024]), rng.randrange(1, 13), rng.randrange(1, 29))
+    if rule == 'ACCOUNT':
+        return 'value', rng.choice(['Assets:X', 'Expenses:Very:Long:Account-Name'])
+    if rule == 'CURRENCY':
+        return 'value', rng.choice(['JPY', 'AB', 'LONG.CUR-X'])
+    if rule == 'TAG':
+        return 'value', rng.choice(['t', 'longer-tag'])
+    if rule == 'LINK':
+        return 'value', rng.choice(['l', 'longer-link'])
+    if rule == 'META_KEY':
+        return 'value', rng.choice(['kk', 'another-key'])
+    if rule == 'WHITESPACE':
+        return 'raw_text', rng.choice([' ', '   ', '\t'])
+    if rule == '_NEWLINE':
+        return 'raw_text', rng.choice(['\n', '\n\n', '\r\n'])
+    return None
+
+
+def _positions(tokens):
+    line = col = 0
+    out = []
+    for t in tokens:
+        out.append((line, col))
+        s = t.raw_text
+        if '\n' in s:
+            line += s.count('\n')
+            col = len(s) - s.rfind('\n') - 1
+        else:
+            col += len(s)
+    return out
+
+
+def run_documents(ctx: common.Ctx, prop_sigs, n_quick: int = 25, n_thorough: int = 250):
+    from harness import gen_docs
+    sd.set_load_factor(ctx.rng.choice([4, 10, 1000]))
+    for _ in range(ctx.scale(n_quick, n_thorough)):
+        lf = ctx.rng.choice([3, 8, 1000])
+        sd.set_load_factor(lf)
+        text = gen_docs.ledger(ctx.rng)
+        f = gen_docs.parse_ok(text, auto_claim=ctx.rng.random() < 0.7)
+        if f is None:
+            ctx.count('rejected_documents')
+            continue
+        store = f.token_store
+        n_assign = 0
+        hist = []
+        for step in range(ctx.rng.choice([3, 6, 12])):
+            toks = list(store)
+            cands = [t for t in toks if _new_value(ctx.rng, t) is not None]
+            if not cands:
+                break
+            tok = ctx.rng.choice(cands)
+            attr, val = _new_value(ctx.rng, tok)
+            before = [t.raw_text for t in toks]
+            i = next(k for k, t in enumerate(toks) if t is tok)
+            try:
+                setattr(tok, attr, val)
+            except Exception as e:      # out-of-domain value for this token type: not this property's concern
+                ctx.count('assignment_refused')
+                continue
+            n_assign += 1
+            hist.append((i, tok.RULE, attr, repr(val)))
+            after = list(store)
+            where = {'lf': lf, 'text': text, 'assignments': hist}
+            if 'C02' in prop_sigs:
+                if len(after) != len(toks) or any(a is not b for a, b in zip(after, toks)):
+                    ctx.monitor_failure('C02:doc-identity', f'{attr} assignment on token {i} ({tok.RULE}) changed token identity/order', where)
+                    break
+                now = [t.raw_text for t in after]
+                if now[:i] != before[:i] or now[i + 1:] != before[i + 1:]:
+                    ctx.monitor_failure('C02:doc-other-text', f'{attr} assignment on token {i} ({tok.RULE}) changed another token', where)
+                    break
+                printed = gen_docs.print_model(f)
+                if printed != ''.join(before[:i]) + tok.raw_text + ''.join(before[i + 1:]):
+                    ctx.monitor_failure('C02:doc-print', f'printed text is not the old text with token {i} replaced', where)
+                    break
+            if 'C08' in prop_sigs:
+                exp = _positions(after)
+                bad = None
+                for k, t in enumerate(after):
+                    p = store.get_position(t)
+                    if (p.line, p.column) != exp[k]:
+                        bad = f'get_position(token {k}) = {(p.line, p.column)}, text says {exp[k]} after {attr} assignment on token {i} ({tok.RULE})'
+                        break
+                    if store.get_index(t) != k:
+                        bad = f'get_index(token {k}) = {store.get_index(t)}'
+                        break
+                if bad:
+                    ctx.monitor_failure('C08:doc-position', bad, where)
+                    break
+        ctx.case({'doc_chars': len(text), 'tokens': len(store), 'assignments': hist[:6], 'lf': lf}, nontrivial=n_assign > 0)
+        ctx.count('document_assignments', n_assign)
+    sd.set_load_factor(1000)
